@@ -27,11 +27,14 @@ def field_of_self(t, field):
     return isinstance(t, tuple) and t[0] == "field" and t[2] == field and t[1][0] == "local" and t[1][2] == "self"
 
 
-def cond_facts(cond, env, mutated):
+def cond_facts(cond, env, mutated, root=None):
     """Occupancy facts established by a condition: list of (kind, subject_term) with kind in
-    {'is_none','is_some'} for the then-branch."""
+    {'is_none','is_some'} for the then-branch. A condition that is a local bound by an earlier immutable `let` is looked
+    through (the bound test must have been evaluated before any write to a slot)."""
     out = []
     c = cond
+    while c.get("k") in ("DropTemps", "Use"):
+        c = c["e"]
     if c.get("k") == "MethodCall" and c["method"] in ("is_none", "is_some"):
         out.append((c["method"], T.term(c["recv"], env, mutated)))
     if c.get("k") == "Let":
@@ -41,18 +44,34 @@ def cond_facts(cond, env, mutated):
             if v in ("Some", "None"):
                 out.append(("is_some" if v == "Some" else "is_none", T.term(c["init"], env, mutated)))
     if c.get("k") == "Unary" and c.get("op") == "Not":
-        inner = cond_facts(c["e"], env, mutated)
+        inner = cond_facts(c["e"], env, mutated, root)
         flip = {"is_none": "is_some", "is_some": "is_none"}
         out.extend((flip[k], s) for k, s in inner)
+    lid = F.local_of(c) if c.get("k") == "Path" else None
+    if lid is not None and root is not None and lid not in mutated:
+        for m, mps in F.walk(root):
+            if m.get("s") == "Let" and m["pat"].get("p") == "Bind" and m["pat"].get("local") == lid and "init" in m and "els" not in m:
+                lk = T._span_key(m["span"])
+                early_write = False
+                for w, _ in F.walk(root):
+                    wk = T._span_key(w.get("span")) if isinstance(w, dict) and w.get("span") else None
+                    if wk is None or not lk or wk[2] > lk[1]:
+                        continue
+                    if w.get("k") == "Assign" and is_slot_of_data(T.term(w["l"], T.Env(), mutated)):
+                        early_write = True
+                    if w.get("k") == "MethodCall" and w["method"] in ("take", "replace", "insert", "get_or_insert") and is_slot_of_data(T.term(w["recv"], T.Env(), mutated)):
+                        early_write = True
+                if not early_write:
+                    out.extend(cond_facts(m["init"], T.env_at(mps, m, mutated), mutated, None))
     return out
 
 
-def occupancy_context(ps, env, mutated):
+def occupancy_context(ps, env, mutated, root=None):
     """Facts that hold at a node because of the enclosing if / match arms."""
     facts = []
     for i, (anc, key) in enumerate(ps):
         if anc.get("k") == "If" and key in ("then", "else"):
-            for k, s in cond_facts(anc["cond"], env, mutated):
+            for k, s in cond_facts(anc["cond"], env, mutated, root):
                 if key == "else":
                     k = {"is_none": "is_some", "is_some": "is_none"}[k]
                 facts.append((k, s))
@@ -97,7 +116,7 @@ def check_vector_map(fx, rep):
             rep.fn(b["def"])
             w = F.loc(n["span"])
             env = T.env_at(ps, n, mutated)
-            facts = occupancy_context(ps, env, mutated)
+            facts = occupancy_context(ps, env, mutated, root)
             if k == "Assign":
                 rhs = T.term(n["r"], env, mutated)
                 ok = rhs == ("lit", "0")
@@ -186,6 +205,17 @@ def check_vector_map(fx, rep):
             is_some_value = rhs[0] == "struct" and str(rhs[2]).endswith("Some") and rhs[3] and rhs[3][0][1][0] == "local" and rhs[3][0][1][2] == "value"
             if is_key_index and is_some_value:
                 ok = True
+        # `self.data[key.index()].replace(value)` / `.insert(value)` store Some(value) as well
+        for n, ps in F.calls(root):
+            if n.get("k") == "MethodCall" and n["method"] in ("replace", "insert") and n["args"]:
+                env = T.env_at(ps, n, mutated)
+                recv = T.term(n["recv"], env, mutated)
+                arg = T.term(n["args"][0], env, mutated)
+                if is_slot_of_data(recv):
+                    idx = recv[2]
+                    is_key_index = idx[0] == "call" and str(idx[1]).endswith("::index") and idx[2] and idx[2][0][0] == "local" and idx[2][0][2] == "key"
+                    if is_key_index and arg[0] == "local" and arg[2] == "value":
+                        ok = True
         rep.oblige(ok, "R19.1", "insert-writes-slot", F.loc(ins["span"]), "VectorMap::insert does not store Some(value) at data[key.index()]")
 
 
